@@ -628,10 +628,12 @@ def c09(res: Result):
     q = res.tier == Q
     rng = random.Random(res.seed + 9)
     run_theorems(res, ["T_Rev", "T_Succ", "T_MinTrap"])
-    tasks = pure_tasks(rng, q, ["trappist", "reduced"], 12 if q else 60, [3, 3, 4, 4, 5] if q else [3, 4, 5, 5, 6], N(q, 400, 4000))
+    tasks = pure_tasks(rng, q, ["trappist", "reduced"] + ([] if q else ["trappist_grid"]), 12 if q else 60,
+                       [3, 3, 4, 4, 5] if q else [3, 4, 5, 5, 6], N(q, 400, 4000))
     res.cov["rule"] = ("trappist (min / max / fix, both time directions, enclosing subspace, 0-3 avoided subspaces, source-variable lists "
                        "auto/none/explicit, solution limits none/0/1/2/3, Petri-net or network input) and compute_fixed_point_reduced_STG "
-                       "(random retained sets, enclosing and avoided subspaces incl. the empty one, limits) on all 256 two-variable networks and "
+                       "(random retained sets, enclosing and avoided subspaces incl. the empty one, limits) on all 256 two-variable networks (thorough: "
+                       "plus the full grid enclosing subspace x single avoided subspace x problem x direction, and retained set x enclosing subspace) and "
                        "random 3-6 variable networks; TLC computes the requested set from the enumerated trap spaces of the network / its time "
                        "reversal and compares (exact set without limit; duplicate-free subset of size min(count, limit) with limit). "
                        "Non-trivial: distinct calls whose result has >= 2 elements or that use avoid / reverse time / limits.")
